@@ -12,6 +12,11 @@ CHECKS = {
         text="Theorem C01_sound (no axioms): for every function body, oracle (condition values, raising calls, handler matches, swallowing context managers, iterator lengths) and fuel, a statement whose marker executes is never among the statements the model reports dead. Every run: generated modules using every construct of the quantifier are analysed by pyscn and executed by CPython under the same oracles; (1) no executed marker lies in a reported dead range (the property itself), (2) Flow.v's dead statements = lines covered by pyscn's ranges, (3) PySem.v traces = CPython traces.",
         note="Flow.v is a hand-written abstraction of cfg_builder.go+reachability.go+dead_code.go (statement level: finding ranges are compared per statement line, block boundaries are not modelled); generators/async scheduling/exceptions raised by non-marker code are outside the semantics; tree-sitter and ast_builder.go are exercised end-to-end, not modelled.",
         design="5 C01, 4.2, 4.5"),
+    "C17": dict(
+        technique="Coq proof per option that the modelled merge chain (flag defaults, Flags().Changed wrappers, hard-wired request values, sentinel merges, pointer/>0 key tests) equals flag-else-file-else-default, or a refutation with the failing cell plus a partial theorem; config discovery model vs nearest-file spec; constants regenerated from the Go AST; 8-cell CLI matrix per option, discovery layouts, pyscn-init differential",
+        text="Props/C17.v (29 theorems, no axioms): full for min_severity, min_cbo, complexity/lcom thresholds, check --max-complexity, explicit --config, .pyscn.toml over pyproject.toml in one directory, nearest file for single-kind chains; refuted + partial for analyze min_complexity and [cbo] thresholds (F6), clone threshold 0 in file (F27). Every run: ~240 CLI runs (option matrix, 87 discovery layouts, pyscn init differential) decided against the spec eff/spec_resolve and tied to the model.",
+        note="open known findings: F6 (analyze ignores file min_complexity and [cbo] thresholds), C17-F27 (similarity_threshold = 0 reads as absent), C17-F28 (exclude_patterns written by pyscn init differ from built-in defaults); F26 fixed; F24 layout (far .pyscn.toml vs near pyproject.toml: property clauses conflict) is not judged; TOML/flag parsing layers are not modelled.",
+        design="5 C17"),
     "C18": dict(
         technique="Coq proof over a model of service/file_reader.go (walk, pattern matching, dedupe) and of the doublestar subset; skip list/extensions/default patterns regenerated from Go source; differential correspondence (vm_compute) against the real FileReader on real directory trees, doublestar itself, and the pyscn CLI",
         text="Theorems (Props/C18.v, no axioms): files analysed = exactly the Python files under the targets matching an include and no exclude pattern (path inside the target; slash-less pattern by name at any depth), run fails iff a target is missing, each file once for any target list, same files for any spelling/cwd of the same places, default excludes apply at any depth; pinned-tree behaviour refuted (F7, F7b, F18, all repaired by fix: commits).",
